@@ -75,7 +75,7 @@ def main():
                 m=json.load(open(os.path.join(os.path.dirname(d),"meta.json")))
                 items.append(("seeded",os.path.basename(os.path.dirname(d)),[m["property"]]+m.get("also",[]),("d",d)))
     for kind,name,props,how in items:
-        if only and only not in name: continue
+        if only and not re.search(only, name): continue
         ok,msg = apply_replace(*how[1:]) if how[0]=="r" else apply_diff(how[1])
         if not ok:
             rows.append((kind,name,"-","APPLY-FAILED",msg[:120])); revert(); print(rows[-1]); continue
@@ -104,6 +104,7 @@ def main():
             revert()
     tag = 'benign-seeded' if '--benign-seeded' in args else 'benign' if '--benign' in args else ('seeded' if '--seeded' in args and only else 'mutants')
     if only and tag == 'mutants': tag = 'partial'
+    if '--tag' in args: tag = args[args.index('--tag')+1]
     with open(f"{VERIF}/mutants/RESULTS-{tag}.md","w") as f:
         f.write("| kind | change | property | result | first failing sub-check |\n|---|---|---|---|---|\n")
         for r in rows: f.write("| "+" | ".join(str(x).replace("|","\\|") for x in r)+" |\n")
